@@ -450,7 +450,7 @@ Lemma merge_cons t d rest :
   else if is_abs (t_kind t) then
     match rest with
     | (i, di) :: (s, ds) :: rest' =>
-      if is_ident (t_kind i) && no_trivia i && is_base_specifier (t_text i)
+      if forallb is_intc (t_text t) && is_ident (t_kind i) && no_trivia i && is_base_specifier (t_text i)
          && is_str (t_kind s) && no_trivia s then
         (mkTok KBitStringLiteral (t_text t ++ t_text i ++ t_text s) (t_trivia t),
          or_err (or_err d di) ds) :: merge rest'
@@ -510,7 +510,7 @@ Proof.
         -- eapply err_ok_no_trivia; [exact En|exact H2].
     + destruct (is_abs (t_kind t)); [|apply keep_good; exact Hrest].
       destruct rest as [|[i di] [|[s ds] rest']]; try (apply keep_good; exact Hrest).
-      destruct (is_ident (t_kind i) && no_trivia i && is_base_specifier (t_text i)
+      destruct (forallb is_intc (t_text t) && is_ident (t_kind i) && no_trivia i && is_base_specifier (t_text i)
                 && is_str (t_kind s) && no_trivia s) eqn:E; [|apply keep_good; exact Hrest].
       apply andb_true_iff in E as [E Ens]. apply andb_true_iff in E as [E _].
       apply andb_true_iff in E as [E _]. apply andb_true_iff in E as [_ Eni].
